@@ -55,7 +55,12 @@ def main():
                 bad += 1
             print("%-52s %-12s fired=%s crashed=%s %ss" % (m["id"], verdict, fired, crashed, dt), flush=True)
             res[m["id"]] = {"verdict": verdict, "fired": fired, "crashed": crashed, "keys": keys[:6], "expected": sorted(exp)}
-    json.dump(res, open(os.path.join(HERE, "mutants", "campaign.json"), "w"), indent=1)
+    path = os.path.join(HERE, "mutants", "campaign.json")
+    allres = json.load(open(path)) if os.path.exists(path) else {}
+    allres.update(res)
+    live = {m["id"] for m in cat}
+    allres = {k: v for k, v in allres.items() if k in live}
+    json.dump(allres, open(path, "w"), indent=1, sort_keys=True)
     print("%d entries, %d need attention" % (len(res), bad))
 
 
